@@ -5,6 +5,7 @@
           fresh object; `minOnOff` comes from the GENERATED class table, never from the harness
      {"op":"w","prop":"pv"|"pa"|"other","v":n|null,"ai":int|null,"pr":int|null}
           WriteProperty(prop, v, arrayIndex=ai, priority=pr)
+     {"op":"cov"}             a COV subscribe / cancel / expiry happened: no effect on the command state
      {"op":"tick","t":µs}     the scheduler looks at the clock at absolute time t
      {"op":"adv","t":µs}      let time pass up to t, the timer firing exactly when due
      {"op":"seq", <reset fields>, "evs":[[pr|null, v|null], …]}
@@ -19,11 +20,14 @@ open Lean BacVerif BacVerif.Drv BacVerif.Commandable
 
 structure D where
   cfg : Cfg Nat
-  st : St Nat
+  rules : List (Rule Nat)
+  m : MSt Nat
 
 def jOptNat : Option Nat → Json
   | none => Json.null
   | some n => Json.num n
+
+def jLeft (l : List Nat) : Json := Json.arr (l.map (fun (n : Nat) => (Json.num n : Json))).toArray
 
 def digest (s : St Nat) : List (String × Json) :=
   [("pv", Json.num s.present),
@@ -40,12 +44,12 @@ def branch (s s' : St Nat) (e : Option CErr) : String :=
     (if s'.deadline = s.deadline then "" else if s'.deadline.isSome then "+arm" else "+disarm") ++
     (if s'.slots 6 = s.slots 6 then "" else "+slot6")
 
-def reply (s s' : St Nat) (e : Option CErr) : Json :=
+def reply (m m' : MSt Nat) (e : Option CErr) : Json :=
   let head : List (String × Json) :=
     match e with
     | none => [("r", "ok")]
     | some k => [("r", "err"), ("k", k.name)]
-  Json.mkObj (head ++ digest s' ++ [("br", Json.str (branch s s' e))])
+  Json.mkObj (head ++ digest m'.st ++ [("left", jLeft m'.left), ("br", Json.str (branch m.st m'.st e))])
 
 def optInt (j : Json) (k : String) : R (Option Int) :=
   match fldOpt j k with
@@ -73,24 +77,44 @@ def mkCfg (j : Json) : R (Cfg Nat × Nat) := do
     pure (cfg, ← fldNat j "pv")
 
 /-- `adv`: fire the timer exactly when due (as the virtual clock does), then stop at t -/
-def advance (cfg : Cfg Nat) : Nat → St Nat → Nat → St Nat × Option CErr
-  | 0, s, _ => (s, some .recursion)
-  | fuel + 1, s, t =>
-    match s.deadline with
+def advance (cfg : Cfg Nat) (rules : List (Rule Nat)) : Nat → MSt Nat → Nat → MSt Nat × Option CErr
+  | 0, m, _ => (m, some .recursion)
+  | fuel + 1, m, t =>
+    match m.st.deadline with
     | some dl =>
       if dl ≤ t then
-        match step cfg s (.tick dl) with
-        | (s', none) => advance cfg fuel s' t
-        | (s', some e) => (s', some e)
-      else step cfg s (.tick t)
-    | none => step cfg s (.tick t)
+        match stepM cfg rules m (.tick dl) with
+        | (m', none) => advance cfg rules fuel m' t
+        | (m', some e) => (m', some e)
+      else stepM cfg rules m (.tick t)
+    | none => stepM cfg rules m (.tick t)
+
+/-- "rules": [[trigger|null, prio|null, value|null, budget], …] -/
+def mkRules (j : Json) : R (List (Rule Nat) × List Nat) := do
+  match fldOpt j "rules" with
+  | none => pure ([], [])
+  | some rs =>
+    let arr ← rs.getArr?
+    let mut rules : List (Rule Nat) := []
+    let mut left : List Nat := []
+    for r in arr do
+      let a ← r.getArr?
+      if a.size != 4 then throw "bad rule"
+      let trg ← match a[0]! with | Json.null => pure none | x => do pure (some (← x.getNat?))
+      let pr ← match a[1]! with | Json.null => pure none | x => do pure (some (← x.getInt?))
+      let v ← match a[2]! with | Json.null => pure none | x => do pure (some (← x.getNat?))
+      rules := rules ++ [{ trigger := trg, prio := pr, value := v }]
+      left := left ++ [← a[3]!.getNat?]
+    pure (rules, left)
 
 def handle (d : D) (j : Json) : R (D × Json) := do
   match ← fldStr j "op" with
   | "reset" =>
       let (cfg, pv) ← mkCfg j
-      let s := init pv
-      pure ({ cfg := cfg, st := s }, Json.mkObj ([("r", Json.str "ok")] ++ digest s ++ [("br", Json.str "reset")]))
+      let (rules, left) ← mkRules j
+      let m : MSt Nat := { st := init pv, left := left }
+      pure ({ cfg := cfg, rules := rules, m := m },
+            Json.mkObj ([("r", Json.str "ok")] ++ digest m.st ++ [("left", jLeft m.left), ("br", Json.str "reset")]))
   | "w" =>
       let prop ← match ← fldStr j "prop" with
         | "pv" => pure PropId.presentValue
@@ -100,16 +124,20 @@ def handle (d : D) (j : Json) : R (D × Json) := do
       let v ← optNat j "v"
       let ai ← optInt j "ai"
       let pr ← optInt j "pr"
-      let (s', e) := step d.cfg d.st (.write prop v ai pr)
-      pure ({ d with st := s' }, reply d.st s' e)
+      let (m', e) := stepM d.cfg d.rules d.m (.write prop v ai pr)
+      pure ({ d with m := m' }, reply d.m m' e)
   | "tick" =>
       let t ← fldNat j "t"
-      let (s', e) := step d.cfg d.st (.tick t)
-      pure ({ d with st := s' }, reply d.st s' e)
+      let (m', e) := stepM d.cfg d.rules d.m (.tick t)
+      pure ({ d with m := m' }, reply d.m m' e)
   | "adv" =>
       let t ← fldNat j "t"
-      let (s', e) := advance d.cfg 8 d.st t
-      pure ({ d with st := s' }, reply d.st s' e)
+      let (m', e) := advance d.cfg d.rules 8 d.m t
+      pure ({ d with m := m' }, reply d.m m' e)
+  | "cov" =>
+      -- a COV subscription / cancellation / expiry on the same object: the command
+      -- state does not depend on who is watching it
+      pure (d, reply d.m d.m none)
   | "seq" =>
       let (cfg, pv) ← mkCfg j
       let evs ← fldArr j "evs"
@@ -129,10 +157,10 @@ def handle (d : D) (j : Json) : R (D × Json) := do
         errs := errs.push (match err with | none => Json.null | some k => Json.str k.name)
         brs := brs.push (Json.str (branch s s' err))
         s := s'
-      pure ({ cfg := cfg, st := s },
+      pure ({ cfg := cfg, rules := [], m := { st := s, left := [] } },
             Json.mkObj ([("r", Json.str "ok"), ("errs", Json.arr errs)] ++ digest s ++ [("br", Json.arr brs)]))
   | op => throw s!"unknown op {op}"
 
 def main : IO Unit :=
   loopS ({ cfg := { default := 0, check := fun _ => none, minOnOff := false, inactive := 0, active := 1, minOn := 0, minOff := 0 },
-           st := init 0 } : D) handle
+           rules := [], m := { st := init 0, left := [] } } : D) handle
